@@ -82,9 +82,7 @@ theorem checkedInsertAfter_eq {f : Forest} {r n : Nat} {tn : HTree} (hg : f.get?
 
 theorem addConsolidate_nontext {f : Forest} {n : Nat} (h : f.textOf n = none)
     (p q : Option Nat) : f.addConsolidate n p q = (f, false) := by
-  unfold addConsolidate; split
-  · rfl
-  · rw [h]
+  rw [addConsolidate_eq_old]; exact addConsolidateOld_not_text h _ _
 
 /-- `append` of a parentless node: either it is placed last under the parent, or it was a text
     node merged into the parent's last child and is gone. -/
